@@ -1,5 +1,5 @@
 (* Concrete thread sets for the non-vacuity statements of C14. *)
-From HL Require Import Lib.Bytes Model.Locks Proofs.LocksProofs Tie.C14.
+From HL Require Import Lib.Bytes Model.Locks Proofs.LocksProofs Proofs.LocksOrder Tie.C14.
 Open Scope N_scope.
 
 Lemma conc_table : conc 0 2 = false /\ conc 1 1 = false /\ conc 1 2 = true /\ conc 2 2 = true /\ conc 2 3 = true.
@@ -40,4 +40,10 @@ Proof.
   - eapply reach_step; [apply reach_init|]. apply (step_thread sample_bad_threads 0%nat writer); reflexivity.
   - exists 0%nat, 1%nat, (advance writer), bare_reader, 7, true, false, [Rel 1], [].
     repeat split; try reflexivity. discriminate.
+Qed.
+
+Lemma sample_ordered : all_ordered sample_threads.
+Proof.
+  intros i t H. destruct i as [|[|[|i]]]; cbn in H; try (destruct i; discriminate); inversion H; subst t; cbn;
+    (split; [intros l' m []|]); (split; [exact I|]); (split; [exact I|]); reflexivity.
 Qed.
